@@ -792,20 +792,44 @@ def _mirror_kernels(ctx, rule='R08.2') -> List[Ob]:
             ts = C.atom(('n', params[2]))
             first_c = C.mk_cmp('gt', C.atom(('sub', ('n', s[i]), C.ZERO)), ts)
             # interval variable: assigned on the prologue path together with the cursor
-            start_vals = []
+            gt1 = C.mk_cmp('gt', N[i], C.ONE)
+
+            def merged(entries, any_value=False):
+                """values of one variable over paths: as they are when they already are `a if N > 1 else b`
+                values; paths that branch on `N > 1` instead are folded back into such a value"""
+                out_ = []
+                yes = [v for cs_, v in entries if gt1 in cs_]
+                no = [v for cs_, v in entries if C.mk_not(gt1) in cs_]
+                for cs_, v in entries:
+                    if gt1 not in cs_ and C.mk_not(gt1) not in cs_:
+                        sa_ = C.single_atom(v)
+                        if any_value or (sa_ is not None and sa_[0] == 'ifexp'):
+                            out_.append(v)
+                for a_ in dict.fromkeys(yes):
+                    for b_ in dict.fromkeys(no):
+                        out_.append(C.atom(('ifexp', gt1, a_, b_)))
+                return out_
+            start_entries: Dict[str, list] = {}
             for env, st, conds in pro:
                 if first_c in conds:
                     for nm, v in env.vals.items():
-                        if nm not in (roles.c1, roles.c2, roles.n1, roles.n2) and ('n', s[i]) in C.atoms_of(v) and C.single_atom(v) and C.single_atom(v)[0] == 'ifexp':
-                            start_vals.append((nm, v))
+                        if nm not in (roles.c1, roles.c2, roles.n1, roles.n2) and C.is_poly(v) and ('n', s[i]) in C.atoms_of(v) \
+                                and not nm.startswith('N_'):
+                            start_entries.setdefault(nm, []).append((conds, v))
+            start_vals = []
+            for nm, ents in start_entries.items():
+                for v in merged(ents):
+                    start_vals.append((nm, v))
             end_vals = []
             cnew = C.add(C.atom(('n', cur)), C.ONE)
             last_c = C.mk_not(C.mk_cmp('lt', cnew, C.sub(N[i], C.ONE)))
+            end_entries = []
             for env, st, conds in lp:
                 if last_c in conds:
                     for nm, v in env.vals.items():
                         if start_vals and nm == start_vals[0][0]:
-                            end_vals.append(C.subst_atoms(v, {('n', cur): C.sub(N[i], C.const(2))}))
+                            end_entries.append((conds, C.subst_atoms(v, {('n', cur): C.sub(N[i], C.const(2))})))
+            end_vals = list(dict.fromkeys(merged(end_entries, any_value=True)))
             t = f"{k.name} ({k.path}): train {i}: the last-interval rule is the mirror image (time reflection) of the first-interval rule"
             if not start_vals or not end_vals:
                 out.append(inconclusive(rule, t, k.loc(), f"start={len(start_vals)} end={len(end_vals)}"))
@@ -868,15 +892,72 @@ def _units_classes(ctx, rule) -> List[Ob]:
             if o.title.startswith('PieceWiseConstFunc') or o.title.startswith('PieceWiseLinFunc')]
 
 
+def _top_env(fi):
+    """state after the once-assigned, side-effect free top-level definitions of a function (`n = len(xs)` ...)"""
+    import ast as _ast
+    from . import canon as C
+    env = C.Env()
+    stores = {}
+    for n in _ast.walk(fi.node):
+        if isinstance(n, _ast.Name) and isinstance(n.ctx, _ast.Store):
+            stores[n.id] = stores.get(n.id, 0) + 1
+    _params = {a_.arg for a_ in fi.node.args.args + fi.node.args.kwonlyargs}
+    for st in fi.node.body:
+        if isinstance(st, _ast.Assign) and len(st.targets) == 1 and isinstance(st.targets[0], _ast.Name) \
+                and stores.get(st.targets[0].id) == 1 and st.targets[0].id not in _params:
+            try:
+                env.vals[st.targets[0].id] = C.canon_expr(st.value, env)
+            except C.CanonError:
+                pass
+    return env
+
+
 def _average_profile(ctx, rule='R09.7') -> List[Ob]:
     import ast as _ast
     from .report import ok, violation
+    from . import canon as C
     fi = ctx.repo.func('pyspike.DiscreteFunc', 'average_profile')
     p = fi.node.args.args[0].arg
-    src = [s for s in fi.node.body if not (isinstance(s, _ast.Expr) and isinstance(s.value, _ast.Constant))]
-    txt = [_ast.unparse(s).replace(' ', '') for s in src]
-    good = any(t.endswith(f"={p}[0].copy()") for t in txt) and any(t.startswith(f"foriinrange(1,len({p})):") and f".add({p}[i])" in t for t in txt) \
-        and any(f".mul_scalar(1.0/len({p}))" in t for t in txt)
+    env = _top_env(fi)
+    P = C.atom(('n', p))
+    n_prof = C.atom(('call', 'len', (P,)))
+    acc = None
+    steps = {'copy': False, 'add-all-others': False, 'scale': False, 'return': False}
+    for st in fi.node.body:
+        if isinstance(st, _ast.Assign) and len(st.targets) == 1 and isinstance(st.targets[0], _ast.Name) \
+                and isinstance(st.value, _ast.Call) and isinstance(st.value.func, _ast.Attribute) and st.value.func.attr == 'copy' \
+                and not st.value.args:
+            try:
+                if C.canon_expr(st.value.func.value, env) == C.atom(('sub', ('n', p), C.ZERO)):
+                    acc = st.targets[0].id
+                    steps['copy'] = True
+            except C.CanonError:
+                pass
+        elif isinstance(st, _ast.For) and acc and isinstance(st.target, _ast.Name) and not st.orelse:
+            try:
+                it = C.canon_expr(st.iter, env)
+                want_it = C.mk_call('range', (C.ONE, n_prof), ())
+                want_it = want_it if C.is_poly(want_it) else C.atom(want_it)
+                body = [b_ for b_ in st.body if not isinstance(b_, _ast.Pass)]
+                if it == want_it and len(body) == 1 and isinstance(body[0], _ast.Expr) and isinstance(body[0].value, _ast.Call) \
+                        and isinstance(body[0].value.func, _ast.Attribute) and body[0].value.func.attr == 'add' \
+                        and isinstance(body[0].value.func.value, _ast.Name) and body[0].value.func.value.id == acc \
+                        and len(body[0].value.args) == 1 \
+                        and C.canon_expr(body[0].value.args[0], env) == C.atom(('sub', ('n', p), C.atom(('n', st.target.id)))):
+                    steps['add-all-others'] = True
+            except C.CanonError:
+                pass
+        elif isinstance(st, _ast.Expr) and acc and isinstance(st.value, _ast.Call) and isinstance(st.value.func, _ast.Attribute) \
+                and st.value.func.attr == 'mul_scalar' and isinstance(st.value.func.value, _ast.Name) and st.value.func.value.id == acc \
+                and len(st.value.args) == 1:
+            try:
+                steps['scale'] = C.canon_expr(st.value.args[0], env) == C.div(C.ONE, n_prof)
+            except C.CanonError:
+                pass
+        elif isinstance(st, _ast.Return) and acc and isinstance(st.value, _ast.Name) and st.value.id == acc:
+            steps['return'] = True
+    good = all(steps.values())
     t = "average_profile: a copy of the first profile, plus every other profile, scaled by 1/len(profiles)"
     return [ok(rule, t, fi.loc(), construct='average_profile') if good else
-            violation(rule, t, fi.loc(), key='pyspike/DiscreteFunc.py::average_profile::route', detail='; '.join(txt)[:300])]
+            violation(rule, t, fi.loc(), key='pyspike/DiscreteFunc.py::average_profile::route',
+                      detail=f"steps recognised: {steps}")]
